@@ -17,6 +17,8 @@ META = {
               '(they are overwritten by constants first) — so garbage, including NaN/inf, cannot propagate — at both entry points',
         'R3': 'filter dominance: at each of the three face-producing sites a face record is created only if vector_is_valid(normal of the SAME plane) holds',
         'R4': 'unit thickness tables (C02.R1)',
+        'R6': 'the public name of a mode is its number of active axes: the discriminants of Dimensionality are OneD = 1, TwoD = 2, ThreeD = 3 — `n.try_into()` (num_enum) selects the '
+              'n-dimensional mode and `Voronoi::dimensionality()` (the discriminant as usize) reports n; a shifted discriminant makes `2.try_into()` build a different dimensionality than asked for',
         'R5': 'the 2D (1D) periodic start box is the slab version of the 3D one (C02.R3): on every active axis the walls lie strictly beyond A_c - W_c/2 and A_c + 3W_c/2 measured with '
               'the width of THAT axis; inactive axes keep the unit-thickness walls',
     },
@@ -35,7 +37,7 @@ def run(ctx):
     for cfg in ctx.configs_used:
         F = ctx.facts(cfg)
         sfx = '' if cfg == 'default' else '@' + cfg
-        for fn in (r1, r2, r3, r4, r5):
+        for fn in (r1, r2, r3, r4, r5, r6):
             rule = 'C08.' + fn.__name__.upper()
             ctx.guarded(rule, 'evaluate' + sfx, lambda: fn(ctx, F, rule, sfx))
 
@@ -210,3 +212,47 @@ def r4(ctx, F, rule, sfx):
 
 def r5(ctx, F, rule, sfx):
     c02.r3(ctx, F, rule, sfx)
+
+
+def r6(ctx, F, rule, sfx):
+    found = None
+    where_ = None
+    for b in F.bodies:
+        for bl in b['blocks']:
+            for st in bl['stmts']:
+                if st['k'] == 'assign' and st['rv']['k'] == 'discr' and st['rv'].get('ty') == 'voronoi::Dimensionality' and st['rv'].get('variants'):
+                    found = {v['name']: int(v['val']) for v in st['rv']['variants']}
+                    where_ = where(b)
+                    break
+            if found:
+                break
+        if found:
+            break
+    if found is None:
+        raise AnalysisIncomplete('no match on Dimensionality found to read the discriminants from')
+    a = F.adt('voronoi::Dimensionality')
+    ctx.check(rule, 'discriminant-is-number-of-active-axes' + sfx, found == {'OneD': 1, 'TwoD': 2, 'ThreeD': 3}, str(found), "{'OneD': 1, 'TwoD': 2, 'ThreeD': 3}", '%s:%s' % (a['file'], a['line']), key_extra='discr')
+    # the two conversions, evaluated on every value: n -> mode with n active axes (anything else is rejected), mode -> n
+    tb = F.body('<voronoi::Dimensionality as num_enum::TryFromPrimitive>::try_from_primitive', required=False) or F.body('<voronoi::Dimensionality as std::convert::TryFrom<usize>>::try_from')
+    got = {}
+    for n in range(0, 5):
+        ipn = I.Interp(F)
+        r, _ = ipn.call_body(tb, [RF.const(n)])
+        ctx.evaluations += ipn.evaluations
+        got[n] = (r.fields[0].variant if isinstance(r.fields.get(0), I.St) else '?') if isinstance(r, I.St) and r.variant == 'Ok' else ('Err' if isinstance(r, I.St) and r.variant == 'Err' else '?')
+    ctx.check(rule, 'number-selects-the-mode' + sfx, got == {0: 'Err', 1: 'OneD', 2: 'TwoD', 3: 'ThreeD', 4: 'Err'}, str(got), 'n.try_into() == the mode with n active axes for n = 1, 2, 3, an error otherwise', where(tb), key_extra='tryfrom')
+    fb = F.body('voronoi::<impl std::convert::From<voronoi::Dimensionality> for usize>::from')
+    back = {}
+    for d in ('OneD', 'TwoD', 'ThreeD'):
+        ipn = I.Interp(F)
+        r, _ = ipn.call_body(fb, [I.St('voronoi::Dimensionality', d, {})])
+        ctx.evaluations += ipn.evaluations
+        back[d] = int(as_rf(r).const_value()) if isinstance(r, RF) and r.is_const() else repr(r)[:30]
+    ctx.check(rule, 'mode-reports-its-number' + sfx, back == {'OneD': 1, 'TwoD': 2, 'ThreeD': 3}, str(back), 'usize::from(mode) == number of active axes', where(fb), key_extra='into')
+    vb = F.body_by_suffix('Voronoi::dimensionality')
+    ip = I.Interp(F)
+    v = I.St('voronoi::Voronoi', 'Voronoi', {}, I.Sym(nf.sym_atom('self'), 'voronoi::Voronoi'))
+    r, _ = ip.call_body(vb, [ip.ref_to(v)])
+    ctx.evaluations += ip.evaluations
+    ok = repr(I.frozen(r)).replace(' ', '') in ('call:<TasInto<U>>::into(self.dimensionality)', 'call:<Tasstd::convert::Into<U>>::into(self.dimensionality)') or repr(I.frozen(r)).endswith('(self.dimensionality)')
+    ctx.check(rule, 'accessor-reports-the-discriminant' + sfx, ok, repr(I.frozen(r))[:100], 'self.dimensionality.into()', where(vb), key_extra='accessor')
